@@ -38,6 +38,8 @@ func tokens(q string) []string {
 	return out
 }
 
+func nil0() *rand.Rand { return rand.New(rand.NewSource(0)) }
+
 type fuzzInput struct {
 	text  string
 	class string
@@ -63,6 +65,12 @@ func fuzzInputs(rng *rand.Rand, perText int, deep bool) []fuzzInput {
 		"match (n) return case when n.x = 1 then 2 else 3 end", "match (n) return reduce(a = 0, x in [1] | a + x)", "match (n) where exists { match (n)-->(m) } return n",
 		"match (n) where n.x = {legacy} return n", "match (n) return all(x in [1] where x = 1)", "match (n) return filter(x in [1] where x = 1)",
 		"match (n) return extract(x in [1] | x)", "match (n) return shortestPath((n)-[*]->(m))", "match p = allShortestPaths((n)-[*..3]->(m)) return p",
+		"match (n) where not not n.x = 1 return n", "match (n) where not (not (n.x = 1)) return n", "match (n:A:B) where n:C:D return n", "match (n) where n:A:B or not n:C return n",
+		"match (n) where n.a = 1 xor n.b = 2 and n.c = 3 or n.d = 4 return n", "match (n) where (n.a = 1 xor n.b = 2) and (n.c = 3 or n.d = 4) return n",
+		"match (n) where n.x = -1.0 or n.y = 2.50 or n.z = 1e3 return n", "match (n) where 1 < n.x <= 5 return n", "match (n) return n.a + 1 * 2 - (3 - 4) / 5 % 6 ^ 2",
+		"match (n) where n.name starts with 'a' and n.name ends with 'b' and n.name contains 'c' and n.x is not null and n.y is null return n",
+		"match p = (a)-[r:E*2..4]->(b)<-[:F|G*..3]-(c)-[*5..]-(d) return p", "match (n) return distinct n.a as x, count(n) as c order by x desc, c skip 1 limit 2",
+		"match (n {a: 1, b: 'x', c: [1, 2], d: {e: true}}) return n", "match (`weird name`:`Kind With Space` {`odd key`: 1}) return `weird name`",
 		"foreach (i in [1] | set n.x = i)", "create unique (a)-[:X]->(b)", "match (n) detach delete n", "merge (n:A) on create set n.x = 1 on match set n.y = 2",
 		"match (n) set n += {a: 1}", "match (n) set n:A:B", "match (n) remove n:A", "unwind $p as x return x", "match (n) return count(*)", "match (n) return n order by n.x desc skip 1 limit 2",
 	} {
